@@ -18,7 +18,10 @@ def gen_ops(rng, tids, lens, n_ops, exhaustive_alphabet=False):
     for _ in range(n_ops):
         k = rng.randint(-(nmax + 2), nmax + 2)
         r = rng.random()
-        if r < 0.15:
+        if r < 0.06:
+            # the trace is shortened (never below the current position): its end is the new MAX-INDEX from then on
+            ops.append(['trim', rng.choice(tids), rng.randint(0, nmax)])
+        elif r < 0.15:
             ops.append(['step'])
         elif r < 0.4:
             ops.append(['stepn', k])
@@ -62,6 +65,10 @@ def op_text(op):
         return f'(set-index/all {op[1]})'
     if k == 'rewind':
         return '(step (- INDEX))'
+    if k == 'trim':
+        return f"(if (<= {op[1]}^INDEX {op[2]}) (trim-trace '{op[1]} {op[2]}) #f)"
+    if k == 'trim1':
+        return f"(if (<= INDEX {op[2]}) (trim-trace '{op[1]} {op[2]}) #f)"
     raise ValueError(k)
 
 
@@ -69,7 +76,7 @@ class C02(framework.PropertyCheck):
     pid = 'C02'
     quick_cases = 400
     thorough_cases = 12000
-    rule = ('random op sequences (len<=12) over step / step n / step "tid" / step tid.. n / set-index / set-index/all / (step (- INDEX)) on 1-2 '
+    rule = ('random op sequences (len<=12) over step / step n / step "tid" / step tid.. n / set-index / set-index/all / (step (- INDEX)) / trim-trace (at or above the position) on 1-2 '
             'generated traces (N<=9, different lengths), amounts in [-(N+2),N+2]; thorough adds all sequences of length<=3 over the op '
             'alphabet for N1,N2<=3; non-trivial = at least one in-range and one out-of-range request')
     assumptions = ['VCD files are read by the real reader; trace contents come from harness/gen_trace.simple_vcd',
@@ -121,6 +128,8 @@ class C02(framework.PropertyCheck):
         pt = probe_text(case['tids'], single)
         steps.append(('eval', 'eorg', pt))
         for op in case['ops']:
+            if op[0] == 'trim' and single:
+                op = ['trim1'] + op[1:]
             steps.append(('eval', 'eorg', op_text(op)))
             steps.append(('eval', 'eorg', pt))
         return steps
@@ -155,6 +164,23 @@ class C02(framework.PropertyCheck):
         k += 1
         for n_op, op in enumerate(case['ops']):
             kind = op[0]
+            if kind == 'trim':
+                t, m = op[1], op[2]
+                if idx[t] <= m:
+                    mx[t] = min(m, mx[t])
+                    want_r = ('I', mx[t])
+                else:
+                    want_r = ('B', False)
+                if k + 1 >= len(iobs):
+                    return {'what': 'evaluation stopped early', 'op': op_text(op), 'obs': iobs[-1]}
+                got_r, got_p = iobs[k], iobs[k + 1]
+                if got_r[0] != 'ok' or got_r[1] != want_r:
+                    return {'what': 'wrong result of trimming', 'op_index': n_op, 'op': op_text(op), 'got': got_r, 'want': want_r}
+                want = expected_probe()
+                if got_p[0] != 'ok' or got_p[1] != want:
+                    return {'what': 'positions/values after trimming differ', 'op_index': n_op, 'op': op_text(op), 'got': got_p, 'want': want}
+                k += 2
+                continue
             # expected effect
             if kind in ('step', 'stepn', 'rewind', 'setindex', 'setindexall'):
                 if kind == 'setindexall':
